@@ -156,6 +156,18 @@ def cases(tier, seed):
         yield {"k": "users", "ctxs": ctxs}
     yield {"k": "strform"}
     yield {"k": "edge"}
+    # arguments with sharing INSIDE (one sub-dictionary object under two keys: a DAG, not a
+    # tree); the algebra is defined by value, so the results must equal those on tree copies
+    subs = M.enum_dicts(LEAVES["q3"], 1)
+    for i in range(0, len(subs), 2 if tier == "quick" else 1):
+        yield {"k": "aliased", "x": subs[i]}
+    # update_recursively(d, "a.b.c") without a value, applied to several dictionaries in turn
+    # with in-place updates of what it inserted in between
+    for i in range(6 if tier == "quick" else 40):
+        yield {"k": "strhist", "i": i, "rs": "%s/C07/strhist/%d" % (seed, i)}
+    # long update_nested histories (a context.variable chain of up to 14 variables)
+    for n in (3, 9, 10, 11, 12, 14):
+        yield {"k": "nestchain", "n": n}
 
 
 # ------------------------------------------------------------------ contracts
@@ -647,6 +659,134 @@ def _run(r, obs, rep, F):
                                  "update_recursively(%r, %r, %r) = %r, expected %r"
                                  % (d, path, val, x, exp))
                     obs.count("string_form_updates")
+    elif k == "aliased":
+        obs.nontrivial = True
+        X = r["x"]
+        ys = M.enum_dicts(LEAVES["q3"], 1)[::3]
+        for y1 in ys:
+            for y2 in ys:
+                shared = M.cp(X)
+                d1 = {"a": shared, "b": shared}
+                tree1 = {"a": M.cp(X), "b": M.cp(X)}
+                d2 = {"a": M.cp(y1), "b": M.cp(y2)}
+                for args, targs, what in (((d1, d2), (tree1, d2), "first"),
+                                          ((d2, d1), (d2, tree1), "second")):
+                    for L in (-1, 1, 2):
+                        rep.evals += 2
+                        obs.count("aliased_argument_calls", 2)
+                        got = F.intersection(*args, level=L)
+                        exp = M.meet(list(targs), L)
+                        if got != exp:
+                            rep.fail("intersection-differs-for-argument-with-internal-sharing",
+                                     "intersection(%r, %r, level=%r) = %r where the %s argument "
+                                     "holds ONE sub-dictionary object under both keys; by value "
+                                     "the greatest common sub-dictionary is %r"
+                                     % (args[0], args[1], L, got, what, exp))
+                        gd = F.difference(*args) if L == -1 else F.difference(args[0], args[1], L)
+                        ed = M.diff(targs[0], targs[1], L)
+                        if gd != ed:
+                            rep.fail("difference-differs-for-argument-with-internal-sharing",
+                                     "difference(%r, %r, level=%r) = %r, by value %r"
+                                     % (args[0], args[1], L, gd, ed))
+                if d1 != tree1 or d1["a"] is not d1["b"]:
+                    rep.fail("argument-changed", "argument with internal sharing modified: %r"
+                             % (d1,))
+                # update_recursively INTO a dictionary with internal sharing is left out: an
+                # in-place update of a shared sub-dictionary shows under both keys by nature
+                x = M.cp(d2)
+                F.update_recursively(x, d1)
+                rep.evals += 1
+                if x != M.update(d2, tree1):
+                    rep.fail("update_recursively-differs-for-other-with-internal-sharing",
+                             "update_recursively(%r, %r) = %r, expected %r"
+                             % (d2, d1, x, M.update(d2, tree1)))
+    elif k == "strhist":
+        import random
+        obs.nontrivial = True
+        rng = random.Random(r["rs"])
+        paths = ["a.b", "a.b.c", "output.filetype.csv", "a", "b.a.b.a"]
+        for _ in range(12):
+            path = rng.choice(paths)
+            keys = path.split(".")
+            other = keys[-1]
+            for key in reversed(keys[:-1]):
+                other = {key: other}
+            if len(keys) == 1:
+                continue            # a single word is not a key-value string
+            d = rng.choice([{}, {"z": 1}, {keys[0]: {"old": 1}}, {keys[0]: 5},
+                            M.rand_dict(rng, 2, keys=(keys[0], "z"))])
+            before = M.cp(d)
+            exp = M.update(before, other)
+            try:
+                F.update_recursively(d, path)
+            except Exception as e:  # pylint: disable=broad-except
+                rep.fail("update_recursively-string-form-raises:" + type(e).__name__,
+                         "update_recursively(%r, %r) raised %r" % (before, path, e))
+                continue
+            rep.evals += 1
+            obs.count("string_form_updates")
+            if d != exp:
+                rep.fail("update_recursively-string-form-differs",
+                         "update_recursively(%r, %r) = %r, expected %r (the string stands for %r;"
+                         " the same string had been applied to other dictionaries before and "
+                         "what it inserted there was changed in place afterwards)"
+                         % (before, path, d, exp, other))
+            # the caller goes on working with its dictionary: in-place changes of everything
+            # that is now inside it (what a later UpdateContext / MakeFilename does)
+            cur = d
+            for key in keys[:-1]:
+                if not M.isd(cur.get(key)):
+                    break
+                cur = cur[key]
+                cur["touched"] = rng.randint(0, 9)
+                if rng.random() < 0.5 and keys[-2] in cur and key != keys[-2]:
+                    pass
+            parent = d
+            for key in keys[:-2]:
+                parent = parent.get(key) if M.isd(parent) else None
+            if M.isd(parent) and keys[-2] in parent:
+                parent[keys[-2]] = "changed-later"
+    elif k == "nestchain":
+        obs.nontrivial = True
+        n = r["n"]
+        key = "variable"
+        d = {}
+        hist = []
+        for i in range(n):
+            prev = M.cp(d.get(key)) if key in d else None
+            F.update_nested(key, d, {"name": "v%d" % i})
+            rep.evals += 1
+            obs.count("update_nested_calls")
+            hist.append("v%d" % i)
+            # the newest on top, the previous d[key] right below it, and so on
+            cur, names = d.get(key), []
+            while M.isd(cur):
+                names.append(cur.get("name"))
+                cur = cur.get(key)
+            if names != hist[::-1] or (prev is not None and d[key].get(key) != prev):
+                rep.fail("update_nested-previous-value-lost",
+                         "after %d successive update_nested(%r, d, {'name': ...}) the chain of "
+                         "names is %r, expected %r" % (i + 1, key, names, hist[::-1]))
+                break
+        # a long (non-recursive) chain as *other* on top of a dictionary that has the key
+        other = M.cp(d[key])
+        target = {key: {"name": "bottom"}, "z": 1}
+        try:
+            F.update_nested(key, target, other)
+        except Exception as e:  # pylint: disable=broad-except
+            rep.fail("update_nested-rejects-long-chain:" + type(e).__name__,
+                     "update_nested(%r, {%r: {'name': 'bottom'}, 'z': 1}, <chain of %d nested "
+                     "%r>) raised %r although *other* is not recursive" % (key, key, n, key, e))
+        else:
+            rep.evals += 1
+            obs.count("update_nested_calls")
+            cur, names = target.get(key), []
+            while M.isd(cur):
+                names.append(cur.get("name"))
+                cur = cur.get(key)
+            if names != hist[::-1] + ["bottom"] or target.get("z") != 1:
+                rep.fail("update_nested-previous-value-lost",
+                         "chain of %d on top of 'bottom' gives names %r" % (n, names))
     elif k == "edge":
         obs.nontrivial = True
         rep.evals += 2
